@@ -14,7 +14,11 @@ Expected(e) == IF "InRangeLogDist" \in Devs THEN GtSmall(e.radius, LogDist(e.nod
 Init == l = 1 /\ viol = {}
 Next == /\ l <= Len(Trace) /\ l' = l + 1
         /\ LET e == Trace[l] IN
-           IF e.ev = "inrange" /\ e.res # Expected(e) THEN viol' = viol \cup {<<l, "inrange">>} ELSE UNCHANGED viol
+           IF e.ev = "inrange" /\ e.res # Expected(e) THEN viol' = viol \cup {<<l, "inrange">>}
+           \* advert: the radius the node reports in a PONG / PING payload (decoded as the little-endian SSZ uint256 it is specified
+           \* to be, logged big-endian) is the radius of its store
+           ELSE IF e.ev = "advert" /\ e.got # e.radius THEN viol' = viol \cup {<<l, "advertised">>}
+           ELSE UNCHANGED viol
 Spec == Init /\ [][Next]_<<l, viol>>
 Done == l = Len(Trace) + 1
 Report == Done => PrintT(<<"VIOL", ToJson(viol)>>)
